@@ -234,8 +234,16 @@ func (t *translator) innerRange(x *ast.RangeStmt, ev *env, cont func(*env) strin
 	if x.Tok != token.DEFINE {
 		unsup(x, "range loop that assigns to existing variables")
 	}
+	pm, isPairs := t.a.pairmaps[t.typeOfSafe(x.X, ev)]
+	kname := ""
 	if kid, ok := x.Key.(*ast.Ident); !ok || kid.Name != "_" {
-		unsup(x, "nested range loop that uses the index")
+		if !isPairs || !ok {
+			unsup(x, "nested range loop that uses the index")
+		}
+		kname = checkName(kid)
+		if _, dup := ev.index[kname]; dup {
+			unsup(kid, "loop variable %s shadows another variable", kname)
+		}
 	}
 	vid, ok := x.Value.(*ast.Ident)
 	if !ok || x.Value == nil {
@@ -252,14 +260,23 @@ func (t *translator) innerRange(x *ast.RangeStmt, ev *env, cont func(*env) strin
 		unsup(x.X, "ranged expression that can panic")
 	}
 	xt := t.typeOf(x.X, ev)
-	if !strings.HasPrefix(xt, "[]") {
-		unsup(x.X, "range over a %s", xt)
+	elemT := ""
+	if isPairs {
+		elemT = pm[1]
+	} else {
+		if !strings.HasPrefix(xt, "[]") {
+			unsup(x.X, "range over a %s", xt)
+		}
+		elemT = xt[2:]
 	}
 	evVar := ev.nest()
-	evVar.add(vname, xt[2:], 1)
+	evVar.add(vname, elemT, 1)
+	if kname != "" {
+		evVar.add(kname, pm[0], 1)
+	}
 	var carried []*variable
 	for _, v := range assigned(x.Body.List, evVar) {
-		if v.name != vname {
+		if v.name != vname && v.name != kname {
 			carried = append(carried, v)
 		}
 	}
@@ -308,12 +325,21 @@ func (t *translator) innerRange(x *ast.RangeStmt, ev *env, cont func(*env) strin
 		exit: func(*env) string { return done },
 	}
 	evBody := ev.nest()
-	evBody.add(vname, xt[2:], 1)
+	evBody.add(vname, elemT, 1)
+	vpat := vname
+	if isPairs {
+		kp := "_"
+		if kname != "" {
+			evBody.add(kname, pm[0], 1)
+			kp = kname
+		}
+		vpat = "(" + kp + ", " + vname + ")"
+	}
 	t.inner++
 	bodyT := t.block(x.Body.List, evBody.clone(), lc, false, func(*env) string { return lc.next(nil) })
 	t.inner--
 	t.emit(loopName, "Fixpoint "+loopName+t.params(fixed)+" (xs' : "+t.coqType(x, xt)+")"+t.params(carried)+" (w : "+t.worldT()+") {struct xs'}\n  : outcome "+stT+" * "+t.worldT()+" :=\n"+
-		"  match xs' with\n  | nil => "+done+"\n  | cons "+vname+" rest' =>\n"+bodyT+"\n  end.")
+		"  match xs' with\n  | nil => "+done+"\n  | cons "+vpat+" rest' =>\n"+bodyT+"\n  end.")
 	pv := t.fresh("p")
 	return "(match " + loopName + names(fixed) + " " + t.pure(x.X, ev, xt) + names(carried) + " w with\n | (Returned " + pat + ", w) =>\n" + cont(ev) +
 		"\n | (Panicked " + pv + ", w) => (Panicked " + pv + ", w)\n | (OutOfFuel, w) => (OutOfFuel, w)\n end)"
